@@ -33,7 +33,7 @@ ASSUMPTIONS = [
     "granted so far covers everything written; a receiver window of 1 never replenishes on its own "
     "(left < size // 2 is never true) - that stall is accepted, the manual adjustWindow event provides grants there",
 ]
-MIN = {"quick": {"states": 158000, "nontrivial": 117000, "outcomes": 5},
+MIN = {"quick": {"states": 197000, "nontrivial": 151000, "outcomes": 7},
        "thorough": {"states": 1600000, "nontrivial": 1600000, "outcomes": 5}}
 
 WINDOWS = [1, 2, 3, 4, 5]
